@@ -431,4 +431,201 @@ theorem one_stable (t : Bytes) (k : TokKind) (n : Nat) (h : one t = some (k, n))
                       simp [this]
                 · simp at h
 
+theorem one_ws_none (c : UInt8) (rest0 : Bytes) (h : B.isWs c = true) : one (c :: rest0) = none := by
+  simp only [B.isWs, Bool.or_eq_true, beq_iff_eq] at h
+  rcases h with ((((rfl | rfl) | rfl) | rfl) | rfl) | rfl <;>
+    simp [one, single, B.isAlpha_, B.isUpper, B.isLower, B.isDigit]
+
+theorem one_head_not_ws (t : Bytes) (k : TokKind) (n : Nat) (h : one t = some (k, n)) :
+    ∃ c r, t = c :: r ∧ B.isWs c = false := by
+  cases t with
+  | nil => simp [one] at h
+  | cons c r =>
+    refine ⟨c, r, rfl, ?_⟩
+    cases hw : B.isWs c with
+    | false => rfl
+    | true => rw [one_ws_none c r hw] at h; simp at h
+
+theorem spanLen_all (p : UInt8 → Bool) (w u : Bytes) (hw : ∀ c ∈ w, p c = true) (hu : ∀ c r, u = c :: r → p c = false) :
+    spanLen p (w ++ u) = w.length := by
+  induction w with
+  | nil =>
+    cases u with
+    | nil => simp [spanLen]
+    | cons c r => simp [spanLen, hu c r rfl]
+  | cons x xs ih =>
+    simp only [List.cons_append, spanLen, hw x (by simp), if_true, List.length_cons]
+    rw [ih (fun c hc => hw c (by simp [hc]))]
+
+/-- a token kind with its text -/
+abbrev KT := TokKind × Bytes
+
+def kt (t : Tok) : KT := (t.kind, t.text)
+
+/-- the text alone is read as one token of that kind (no bracket comment) -/
+def Genuine (x : KT) : Prop := one x.2 = some (x.1, x.2.length) ∧ x.1 ≠ .bracket_comment
+
+/-- `text` is these tokens in order, white space between them, each followed by something that cannot continue it -/
+inductive SWeave : List KT → Bytes → Prop
+  | nil (ws : Bytes) (h : ∀ c ∈ ws, B.isWs c = true) : SWeave [] ws
+  | cons (ws : Bytes) (h : ∀ c ∈ ws, B.isWs c = true) (k : TokKind) (txt : Bytes) (ks : List KT) (rest : Bytes)
+      (hg : Genuine (k, txt)) (hsep : Sep k rest) (hr : SWeave ks rest) : SWeave ((k, txt) :: ks) (ws ++ txt ++ rest)
+
+theorem SWeave.prepend {ks : List KT} {x : Bytes} (h : SWeave ks x) (w : Bytes) (hw : ∀ c ∈ w, B.isWs c = true) :
+    SWeave ks (w ++ x) := by
+  cases h with
+  | nil ws hws =>
+    apply SWeave.nil
+    intro c hc
+    simp only [List.mem_append] at hc
+    rcases hc with hc | hc
+    · exact hw c hc
+    · exact hws c hc
+  | cons ws hws k txt ks rest hg hsep hr =>
+    have : w ++ (ws ++ txt ++ rest) = (w ++ ws) ++ txt ++ rest := by simp [List.append_assoc]
+    rw [this]
+    apply SWeave.cons _ _ k txt ks rest hg hsep hr
+    intro c hc
+    simp only [List.mem_append] at hc
+    rcases hc with hc | hc
+    · exact hw c hc
+    · exact hws c hc
+
+/-- one step of the scan loop over a token in front of a separator -/
+theorem scan_tok (fuel : Nat) (k : TokKind) (txt rest : Bytes) (pos : Nat) (acc : List Tok) (hg : Genuine (k, txt))
+    (hsep : Sep k rest) :
+    scan (fuel + 1) (txt ++ rest) pos acc = scan fuel rest (pos + txt.length) (⟨k, pos, txt⟩ :: acc) := by
+  obtain ⟨c, r, rfl, hc⟩ := one_head_not_ws _ _ _ hg.1
+  have hst := one_stable _ _ _ hg.1 hg.2 rest hsep
+  rw [List.take_length] at hst
+  simp only [List.cons_append] at hst ⊢
+  simp only [scan, hc, Bool.false_eq_true, if_false, hst]
+  have e1 : (c :: (r ++ rest)).drop (c :: r).length = rest := by
+    have : c :: (r ++ rest) = (c :: r) ++ rest := rfl
+    rw [this, List.drop_left]
+  have e2 : (c :: (r ++ rest)).take (c :: r).length = c :: r := by
+    have : c :: (r ++ rest) = (c :: r) ++ rest := rfl
+    rw [this, List.take_left]
+  rw [e1, e2]
+
+/-- one step of the scan loop over a run of white space -/
+theorem scan_ws (fuel : Nat) (w u : Bytes) (pos : Nat) (acc : List Tok) (hne : w ≠ []) (hw : ∀ c ∈ w, B.isWs c = true)
+    (hu : ∀ c r, u = c :: r → B.isWs c = false) :
+    scan (fuel + 1) (w ++ u) pos acc = scan fuel u (pos + w.length) acc := by
+  cases w with
+  | nil => exact absurd rfl hne
+  | cons x xs =>
+    have hsp := spanLen_all B.isWs (x :: xs) u hw hu
+    simp only [List.cons_append] at hsp ⊢
+    simp only [scan, hw x (by simp), if_true, hsp]
+    have : x :: (xs ++ u) = (x :: xs) ++ u := rfl
+    rw [this, List.drop_left]
+
+theorem scan_sweave (ks : List KT) (t : Bytes) (h : SWeave ks t) : ∀ (fuel pos : Nat) (acc : List Tok), t.length < fuel →
+    ∃ r, scan fuel t pos acc = some r ∧ r.err = none ∧ r.toks.map kt = acc.reverse.map kt ++ ks := by
+  induction h with
+  | nil ws hws =>
+    intro fuel pos acc hf
+    cases ws with
+    | nil =>
+      cases fuel with
+      | zero => omega
+      | succ fuel => exact ⟨⟨acc.reverse, none, pos⟩, by simp [scan], rfl, by simp⟩
+    | cons x xs =>
+      cases fuel with
+      | zero => omega
+      | succ fuel =>
+        have := scan_ws fuel (x :: xs) [] pos acc (by simp) hws (by intro c r h; simp at h)
+        rw [List.append_nil] at this
+        rw [this]
+        cases fuel with
+        | zero => simp at hf
+        | succ fuel => exact ⟨⟨acc.reverse, none, pos + (x :: xs).length⟩, by simp [scan], rfl, by simp⟩
+  | cons ws hws k txt ks rest hg hsep hr ih =>
+    intro fuel pos acc hf
+    obtain ⟨c, r, hcr, hc⟩ := one_head_not_ws _ _ _ hg.1
+    have hlen : 1 ≤ txt.length := by
+      have : (k, txt).2 = txt := rfl
+      rw [this] at hcr; rw [hcr]; simp
+    simp only [List.length_append] at hf
+    have key : ∀ (fuel pos : Nat) (acc : List Tok), txt.length + rest.length < fuel →
+        ∃ r', scan fuel (txt ++ rest) pos acc = some r' ∧ r'.err = none ∧ r'.toks.map kt = acc.reverse.map kt ++ (k, txt) :: ks := by
+      intro fuel pos acc hf
+      cases fuel with
+      | zero => omega
+      | succ fuel =>
+        rw [scan_tok fuel k txt rest pos acc hg hsep]
+        obtain ⟨r', h1, h2, h3⟩ := ih fuel (pos + txt.length) (⟨k, pos, txt⟩ :: acc) (by omega)
+        exact ⟨r', h1, h2, by rw [h3]; simp [kt]⟩
+    cases ws with
+    | nil => simpa using key fuel pos acc (by omega)
+    | cons x xs =>
+      cases fuel with
+      | zero => omega
+      | succ fuel =>
+        have hu : ∀ c' r', txt ++ rest = c' :: r' → B.isWs c' = false := by
+          intro c' r' h
+          have : (k, txt).2 = txt := rfl
+          rw [this] at hcr
+          rw [hcr] at h
+          simp only [List.cons_append, List.cons.injEq] at h
+          rw [← h.1]; exact hc
+        have := scan_ws fuel (x :: xs) (txt ++ rest) pos acc (by simp) hws hu
+        rw [List.append_assoc, this]
+        simp only [List.length_cons] at hf
+        exact key fuel _ acc (by omega)
+
+/-- **such a weave lexes, without error, to exactly its tokens** -/
+theorem lex_of_sweave (ks : List KT) (t : Bytes) (h : SWeave ks t) :
+    ∃ r, lex t = some r ∧ r.err = none ∧ r.toks.map kt = ks := by
+  obtain ⟨r, h1, h2, h3⟩ := scan_sweave ks t h (t.length + 1) 0 [] (by omega)
+  exact ⟨r, h1, h2, by simpa using h3⟩
+
+theorem sep_nil (k : TokKind) : Sep k [] := by
+  cases k <;> simp [Sep, HeadSep, HeadLF]
+
+/-- every token the lexer produces (bracket comments aside) is read as itself when it stands alone -/
+def GTok (tok : Tok) : Prop := tok.kind ≠ .bracket_comment → Genuine (kt tok)
+
+theorem scan_genuine : ∀ (fuel : Nat) (t : Bytes) (pos : Nat) (acc : List Tok) (r : Result),
+    (∀ tok ∈ acc, GTok tok) → scan fuel t pos acc = some r → ∀ tok ∈ r.toks, GTok tok := by
+  intro fuel
+  induction fuel with
+  | zero => intro t pos acc r _ h; simp [scan] at h
+  | succ fuel ih =>
+    intro t pos acc r hacc h
+    unfold scan at h
+    cases t with
+    | nil =>
+      simp at h
+      subst h
+      intro tok htok
+      exact hacc tok (by simpa using htok)
+    | cons c rest =>
+      simp only at h
+      split at h
+      · exact ih _ _ acc r hacc h
+      · split at h
+        · simp at h
+          subst h
+          intro tok htok
+          exact hacc tok (by simpa using htok)
+        · rename_i k n hone
+          have hb := one_bounds (c :: rest) k n hone
+          apply ih _ _ _ r ?_ h
+          intro tok htok
+          simp only [List.mem_cons] at htok
+          rcases htok with rfl | htok
+          · intro hk
+            have hst := one_stable _ _ _ hone hk [] (sep_nil k)
+            rw [List.append_nil] at hst
+            refine ⟨?_, hk⟩
+            simp only [kt, List.length_take]
+            rw [Nat.min_eq_left hb.2]
+            exact hst
+          · exact hacc tok htok
+
+theorem lex_genuine (text : Bytes) (r : Result) (h : lex text = some r) : ∀ tok ∈ r.toks, GTok tok :=
+  scan_genuine _ text 0 [] r (by intro tok ht; simp at ht) h
+
 end Lex
